@@ -32,7 +32,7 @@ P2Struct == {"remove.creator", "remove.main", "remove.fd", "remove.ifsc", "remov
              "recv.data_short", "recv.data_long", "recv.data_wrong",
              "recv.exps_vdm_singular",
              "creator.body_empty", "creator.body_padding", "creator.body_blank"}
-             \cup OptPackets   \* exponents relabelled {0, 21845, 43690}: singular for the slices 0 and 2 (constants 2^1, 2^4)
+             \cup OptPackets \cup {"nonrecv.ok", "nonrecv.short_ifsc", "nonrecv.long_ifsc", "nonrecv.no_packets"}   \* a file in the non-recovery set   \* exponents relabelled {0, 21845, 43690}: singular for the slices 0 and 2 (constants 2^1, 2^4)
 P1Fields == {"hdr.volume", "hdr.file_count", "hdr.list_offset", "hdr.list_bytes", "hdr.data_offset", "hdr.data_bytes", "hdr.version",
              "ent.entry_bytes", "ent.status", "ent.file_bytes"}
 P1Struct == {"ent.hash", "ent.hash16k", "vol.data_short", "vol.data_long", "vol.number_swapped", "set.256_entries", "set.255_entries", "set.257_entries", "set.300_entries",
@@ -67,6 +67,7 @@ ValidMut(m) ==
   \/ m.kind = "struct" /\ m.field \in {"set.255_entries", "set.256_entries"}
   \/ m.kind = "struct" /\ m.field \in {"dup.creator", "dup.main", "dup.fd", "dup.ifsc", "dup.recv"}
   \/ m.kind = "struct" /\ m.field \in OptPackets
+  \/ m.kind = "struct" /\ m.field = "nonrecv.ok"               \* a consistent non-recovery file: still a valid set
   \/ m.kind = "struct" /\ m.field = "remove.recv"              \* fewer recovery blocks: still a valid set
   \* volumes need not repeat main / file description / checksum packets (a creator is required in every file)
   \/ m.kind = "struct" /\ m.field \in {"remove.main", "remove.fd", "remove.ifsc"} /\ m.where = "volume"
